@@ -185,7 +185,9 @@ def backends(tier):
         asm = libmod.get("asm")
         bs = [Members("asm-dispatch", asm), Symbols("x86-bmi2-symbols", asm, True), Symbols("x86-base-symbols", asm, False),
               Members("asm-members-base", libmod.get("asm", "base")), Members("asm-members-bmi2", libmod.get("asm", "bmi2")),
-              Members("portable64", libmod.get("p64")), Members("portable32", libmod.get("p32"))]
+              Members("portable64", libmod.get("p64")), Members("portable32", libmod.get("p32")),
+              # the ARM binding layers (arch/aarch64/*.hpp, arch/armv6_m/*.hpp, armv6_m/fp.cpp) compiled for the host over plain-C symbols
+              Members("glue-aarch64", libmod.get("glue-a64")), Members("glue-armv6m", libmod.get("glue-v6m"))]
         _backends[key] = bs
     return _backends[key]
 
@@ -437,14 +439,14 @@ def setup_backends(cfg):
 
 def prebuild(tier):
     from .. import build
-    for c in ("asm", "p64", "p32"):
+    for c in ("asm", "p64", "p32", "glue-a64", "glue-v6m"):
         build.build_shim(c)
     arm_backends("arm")      # assemble / expand the ARM sources once, before the workers fork
 
 
 SUBCHECKS = [
     Sub("primitives", prim_cases(), check_prim, 30000, 1500000, ("all",), ("all",), setup=setup_backends),
-    Sub("generic", generic_cases(), check_generic, 40000, 1000000, ("p64", "p32", "asm"), ("p64", "p32", "asm")),
+    Sub("generic", generic_cases(), check_generic, 40000, 1000000, ("p64", "p32", "asm", "glue-a64", "glue-v6m"), ("p64", "p32", "asm", "glue-a64", "glue-v6m")),
 ]
 
 
@@ -617,7 +619,8 @@ SUBCHECKS.append(Sub("arm", prim_cases(), check_arm, 16000, 400000, ("arm",), ("
 # ---- API transcripts: keys, ciphertexts, signatures and hashes are identical whichever back end is used -------
 def transcript_env(cfg):
     from .. import lib as libmod
-    return [("asm", libmod.get("asm")), ("asm:base", libmod.get("asm", "base")), ("p64", libmod.get("p64")), ("p32", libmod.get("p32"))]
+    return [("asm", libmod.get("asm")), ("asm:base", libmod.get("asm", "base")), ("p64", libmod.get("p64")), ("p32", libmod.get("p32")),
+            ("glue-a64", libmod.get("glue-a64")), ("glue-v6m", libmod.get("glue-v6m"))]
 
 
 def transcript_cases():
